@@ -6,6 +6,7 @@
 package harness
 
 import (
+	"encoding/binary"
 	"encoding/json"
 	"flag"
 	"fmt"
@@ -16,6 +17,7 @@ import (
 	"strconv"
 	"strings"
 	"sync/atomic"
+	"syscall"
 	"testing"
 	"time"
 
@@ -66,6 +68,9 @@ func Register[A any](prop, name string, fn func(A) *Violation) *Checker[A] {
 // reported as a violation carrying the stack, so that it shrinks and replays
 // like any other failure.
 func (c *Checker[A]) Eval(a A) (v *Violation) {
+	if crashArm(c.name, a) {
+		defer crashDisarm()
+	}
 	inFlight.Store(&flight{start: time.Now(), fail: func(msg string) { c.writeFail(a, violf("%s", msg)) }, check: c.name})
 	defer func() {
 		inFlight.Store(nil)
@@ -74,6 +79,74 @@ func (c *Checker[A]) Eval(a A) (v *Violation) {
 		}
 	}()
 	return c.fn(a)
+}
+
+// ---- crash guard ---------------------------------------------------------------
+//
+// A panic is recovered above and shrinks like any failure. A *fatal* runtime
+// error (stack overflow from unbounded recursion, "all goroutines are asleep",
+// concurrent map writes, a corrupted heap) cannot be recovered: the process
+// dies. So that such a death is reported with its input instead of as an
+// anonymous worker failure, the arguments of the evaluation in progress are
+// kept in a file-backed shared mapping under VERIF_OUT (no system call per
+// evaluation; the kernel keeps the pages after the process is gone). The driver
+// reads the file when a shard exits abnormally without a replay file, re-runs
+// the case in a fresh process, and reports a violation only if it kills that
+// process too (otherwise the death is infrastructure trouble: exit 2).
+//
+// Layout: 4-byte little-endian length n, then n bytes "<check name>\n<args JSON>";
+// n = 0 when no evaluation is in progress.
+
+const crashCap = 8 << 20
+
+var (
+	crashBuf   []byte
+	crashDepth atomic.Int32
+)
+
+func init() {
+	dir := os.Getenv("VERIF_OUT")
+	if dir == "" {
+		return
+	}
+	f, err := os.OpenFile(filepath.Join(dir, "inflight-case.bin"), os.O_RDWR|os.O_CREATE|os.O_TRUNC, 0o644)
+	if err != nil {
+		return
+	}
+	defer f.Close()
+	if f.Truncate(crashCap) != nil {
+		return
+	}
+	b, err := syscall.Mmap(int(f.Fd()), 0, crashCap, syscall.PROT_READ|syscall.PROT_WRITE, syscall.MAP_SHARED)
+	if err == nil {
+		crashBuf = b
+	}
+}
+
+// crashArm records the outermost evaluation in progress; it reports whether
+// the caller has to disarm.
+func crashArm(check string, a any) bool {
+	if crashBuf == nil {
+		return false
+	}
+	if crashDepth.Add(1) != 1 {
+		return true
+	}
+	raw, err := json.Marshal(a)
+	if err != nil || 4+len(check)+1+len(raw) > len(crashBuf) {
+		return true
+	}
+	n := copy(crashBuf[4:], check)
+	crashBuf[4+n] = '\n'
+	copy(crashBuf[4+n+1:], raw)
+	binary.LittleEndian.PutUint32(crashBuf, uint32(n+1+len(raw)))
+	return true
+}
+
+func crashDisarm() {
+	if crashDepth.Add(-1) == 0 {
+		binary.LittleEndian.PutUint32(crashBuf, 0)
+	}
 }
 
 // ---- termination watchdog -----------------------------------------------------
